@@ -86,11 +86,12 @@ def run(ctx):
     nth_conjunct_contract(ctx, py)
     # the other derived rules of the tautology library return proofs too (pairs of implications between a form and its normal form,
     # a refutation from a clause list): their advertised conclusions are checked as inductive steps (shared with C09)
-    from .c09 import clauses_stage_contract, form_stage_contract, resolution_contract
+    from .c09 import clauses_stage_contract, form_stage_contract, resolution_contract, resolvable_contract
     form_stage_contract(ctx, py, 'propag_neg')
     form_stage_contract(ctx, py, 'to_cnf')
-    clauses_stage_contract(ctx, py)
+    clauses_stage_contract(ctx, py, max_k=8 if ctx.tier == 'thorough' else 4)
     resolution_contract(ctx, py)
+    resolvable_contract(ctx, py)
     # a reference lemma that left the analysed subset fails the run closed - unless a violation already explains it
     if broken and not any(not o['ok'] for o in ctx.obligations):
         ctx.require(False, broken[0])
